@@ -322,7 +322,7 @@ PROPS['C02'] = dict(
     technique='contract-based: Verus (overflow/bounds/unwrap/assert sites as obligations) + Kani default checks on the harnesses of C03 C05 C06 C09 C10 C11 C17',
     design_ref='DESIGN.md section 4, C02',
     explanation='union of panic-freedom obligations of every function under contract; the quick tier leaves out only the harnesses that are thorough-tier in their own property and the full-domain key table harness',
-    verus=[dict(unit='dynmacro', only=DYN_FUNCS), dict(unit='switch'), dict(unit='oneshot'), dict(unit='waiting'), dict(unit='ticks'), dict(unit='repeat'), dict(unit='seqs'), dict(unit='layers'), dict(unit='sexpr'), dict(unit='reload'), dict(unit='holdtap'), dict(unit='chordtab')],
+    verus=[dict(unit='dynmacro', only=DYN_FUNCS), dict(unit='switch'), dict(unit='oneshot'), dict(unit='waiting'), dict(unit='ticks'), dict(unit='repeat'), dict(unit='seqs'), dict(unit='layers'), dict(unit='sexpr'), dict(unit='reload'), dict(unit='holdtap'), dict(unit='chordtab'), dict(unit='overrides')],
     kani=_c02_kani(),
     assumptions=[
         'NOT covered: Layout::{tick, do_action, event} outside the fragments named above, resolve_coord, process_sequences, ChordsV2::process_presses, every Kanata method except handle_repeat_actual and handle_scrolling (handle_move_mouse uses f64; tick_sequence_state returns a &mut from a getter), the parser',
@@ -452,6 +452,36 @@ PROPS['C18'] = dict(
         'states_has_coord is an assumed stub (closure in Iterator::any)',
     ],
     trusted_base=['rustc', 'Verus 0.2026.09.13 / Z3', 'extractor lib/rustcut.py + lib/verusgen.py'],
+)
+
+
+PROPS['C13'] = dict(
+    level='other',
+    level_text=('PARTIAL: unbounded proofs (Verus/Z3) about the pure key-list transformation Overrides::override_keys and the functions it is built from, on text cut from parser/src/cfg/key_override.rs each run. '
+                'Proved: (1) override_keys, whole: with no overrides configured nothing happens; otherwise the list is scanned once, front to back, starting from a CLEAN scratch state (nothing from the previous tick survives: '
+                '"no override output key stays pressed"), a modifier is remembered in the mask, any other key goes through the selection with the modifiers that came before it; afterwards exactly the keys marked for removal are '
+                'taken out - every other key stays, in order ("keys outside the combination are unaffected") - and the keys to add are appended. (2) What a selected override marks: add_override_keys puts the output modifiers and the output key into '
+                'the add list (each once, nothing else), add_removed_keys puts the whole input combination - its modifiers and its one non-modifier key - into the remove list. (3) mask_for_key gives the eight modifiers eight distinct bits and '
+                'nothing else a bit; get_mod_mask is the union of the bits of the input modifiers. '
+                'NOT decided: the SELECTION itself ("when several overrides of the same key match, the one with the most modifiers wins": Overrides::update_keys is an iterator filter whose closure mutates a captured counter, then .last() - outside Verus; '
+                'its effect on the two lists is an uninterpreted function here), Override::try_new (validation, iterator chains), the eager-erasure marking, release-on-activation and everything on the Kanata side (what the OS then sees over a history).'),
+    level_note=('Trusted: rustc, Verus+Z3, extractor. Assumed: Overrides::update_keys (uninterpreted effect), OverrideStates::add_overrides (one statement of iterator adaptors: appends the add list, converted), Vec::retain (R42 helper: predicate called once per element, front to back), '
+                '`v.iter().copied()` = the items front to back (R17), <[T]>::contains = membership, FxHashMap::is_empty, KeyCode <-> OsCode conversions uninterpreted (C11). Type invariant of Override assumed as a precondition of get_mod_mask: in_mod_oscs holds modifiers only (else `.expect("mod only")` panics).'),
+    technique='contract-based deductive verification (Verus): ensures over a recursive fold (run/step) of the scan, loop invariants over ghost iterators, closure postcondition for the retain predicate',
+    design_ref='DESIGN.md section 9.1b (C13)',
+    explanation=('Unit overrides. override_keys: is_empty ==> kcs and states unchanged; else final(states) == run(old kcs, len) and final(kcs) == kept(old kcs, run.rem) + run.add mapped to key codes, where run folds step over the list from the clean state and '
+                 'step(st, osc) = (mods | mask) for a modifier, (upd_add, upd_rem)(osc, st.mods, ..) otherwise. update == step; cleanup empties; is_key_overridden == membership in the remove list; the retain closure is verified against `b == !rem.contains(osc_of(*kc))`. '
+                 'add_override_keys / add_removed_keys: old list is a prefix, every listed key and the non-modifier key present, nothing else added. mask_for_key == mask_spec (bit_vector hint for the eight shifts); get_mod_mask == mask_of(in_mod_oscs).'),
+    verus=[dict(unit='overrides')],
+    kani=[],
+    assumptions=[
+        'NOT decided: Overrides::update_keys - which override of a key is selected (longest matching modifier set) - because its filter closure mutates a captured counter; it is a stub whose effect on (oscs_to_add, oscs_to_remove) is uninterpreted',
+        'NOT decided: Override::try_new (exactly one non-modifier key in and out), Overrides::new (grouping by input key), mark_overridden_nonmodkeys_for_eager_erasure, override_release_on_activation and the emission in Kanata::handle_keystate_changes',
+        'OBSERVATION (from the proved scan order): a modifier counts for a key only if it comes BEFORE that key in the list of keys being held',
+        'precondition of get_mod_mask (type invariant established by try_new, not under contract): every key of in_mod_oscs is one of the eight modifiers',
+        'OverrideStates::add_overrides, Vec::retain, slice contains, `iter().copied()`, FxHashMap::is_empty are assumed contracts; KeyCode <-> OsCode are uninterpreted functions',
+    ],
+    trusted_base=['rustc', 'Verus 0.2026.09.13 / Z3', 'extractor lib/rustcut.py + lib/verusgen.py (rewrites logged in rewrites_applied)'],
 )
 
 
